@@ -307,7 +307,8 @@ theorem validation_accepts_empty_values_witness :
       List.lookup]
   · simp [generateIndexes, generateMatrixCombinations, numCombinations, odometer]
 
-/-- **validation_rejects_bad_specs is FALSE for the code as it is** (full statement: `validate spec = ok →
+/-- **validation_rejects_bad_specs was FALSE for the validator before fix 4b8da56** (`validateParallelismSpec` is that
+earlier shape, kept as documentation; the current one is `…_fixed` below) (full statement: `validate spec = ok →
 NoDup indexes ∧ hash injective on them`, for every hash function). -/
 theorem validation_rejects_bad_specs_false :
     ¬ ∀ (hash : Index → String) (spec : Spec) (ixs : List Index), validateParallelismSpec spec = [] →
